@@ -15,6 +15,8 @@ RULE = ("odometer enumeration (no randomness) of documents x callback programs. 
         "it stops), or the document is a limit document.")
 HARNESSES = [
     dict(name="xml", src=["xml.c"], variant="asan", deadline={"quick": 150, "thorough": 1500}),
+    # free-running ThreadSanitizer twin: two threads, each with objects of its own (harness/common/twin.c; samples, decides nothing)
+    dict(name="own-objects-tsan", src=["../common/twin.c"], variant="tsan", cflags=["-DTWIN_C12", "-DVSX_FREE_RUNS=6"], deadline={"quick": 60, "thorough": 120}),
 ]
 ASSUMPTIONS = [
     "preamble x decoration is not a full product for 5-element trees (quick: 3- and 4-element trees): preamble follows the digit sum",
